@@ -13,6 +13,7 @@ import (
 	"os"
 	"sort"
 	"sync"
+	"sync/atomic"
 	"time"
 
 	"worldcoin/gnark-mbu/server"
@@ -27,6 +28,7 @@ type loadSpec struct {
 	Kinds     []reqKind `json:"kinds"`
 	TraceFile string    `json:"traceFile"`
 	Scrapes   int       `json:"scrapesPerRound"`
+	SlowMs    int       `json:"slowMs"` // in round 1, client c1 sends a valid request whose proof takes this much longer (held at prove.proved)
 }
 
 type traceWriter struct {
@@ -57,12 +59,16 @@ func init() {
 		tw := &traceWriter{f: f}
 		// hooks: record only, under the trace writer's mutex (file order = real interleaving)
 		g := newGatekeeper()
+		var curRound int32 = -1
 		server.VerifHook = func(ev string, args ...interface{}) {
 			g.mu.Lock()
 			who, extra := g.keyOf(ev, args)
 			g.mu.Unlock()
 			if len(ev) > 6 && ev[:6] == "prove." && who != "" {
 				tw.emit(map[string]interface{}{"event": ev, "c": who, "arg": extra})
+			}
+			if cs.SlowMs > 0 && ev == "prove.proved" && who == "c1" && atomic.LoadInt32(&curRound) == 1 {
+				time.Sleep(time.Duration(cs.SlowMs) * time.Millisecond) // a production-size proof takes tens of seconds
 			}
 		}
 		cfg := server.Config{ProverAddress: freeAddr(), MetricsAddress: freeAddr(), Mode: w.mode}
@@ -85,6 +91,7 @@ func init() {
 			if round == 0 {
 				n = 1 // a sequential request first
 			}
+			atomic.StoreInt32(&curRound, int32(round))
 			ids := make([]string, n)
 			reqs := map[string]*builtReq{}
 			kinds := map[string]reqKind{}
@@ -93,6 +100,13 @@ func init() {
 			for i := 0; i < n; i++ {
 				ids[i] = fmt.Sprintf("c%d", i+1)
 				k := cs.Kinds[rng.Intn(len(cs.Kinds))]
+				if cs.SlowMs > 0 && round == 1 && i == 0 {
+					for _, kk := range cs.Kinds {
+						if kk.Method == "POST" && kk.Body == "valid" {
+							k = kk
+						}
+					}
+				}
 				kinds[ids[i]] = k
 				reqs[ids[i]] = w.build(k)
 				all = append(all, reqs[ids[i]])
